@@ -19,6 +19,8 @@ ORACLES = {
     'lease-queue-across-reconnect': ('c10', 'lease_reconnect_oracle', 'lease_reconnect_case', 9),
     'failing-source-wire': ('c08', 'failing_source_oracle', 'failing_source_case', 36),
     'second-connection-keepalive': ('c15', 'second_connection_oracle', 'second_connection_case', 3),
+    'stream0-order': ('c05', 'stream0_order_oracle', 'stream0_case', 4),
+    'messaging-transport-failure': ('c04', 'messaging_battery', 'messaging_case', 60),
     'endpoint-reads': ('c04', 'endpoint_reads_battery', 'kind', 100),
 }
 
